@@ -12,6 +12,10 @@
 //	    used across blocks), a COLD one (fresh per block) and the node's own import; the trace (Trace_Authority.tla)
 //	    carries the transactions with their outcome, the packer's proposer list and the projection after each block.
 //
+//	authority -mode bignet -out <dir> -seed S -blocks B
+//	    the cap of 101 proposers: 105 endorsed authorities, params[max-block-proposers] = 200 (and moved around), v2 and
+//	    v1 scheduler; real packer on one store, real consensus (cold + warm) on another; same trace format.
+//
 // Deterministic in its flags. Exit 3 + HARNESS-ERROR on own trouble.
 package main
 
@@ -114,6 +118,17 @@ func (u *universe) checker(st *state.State, blockNum uint32) authority.BalanceCh
 	return builtin.Staker.Native(st).TransitionPeriodBalanceCheck(u.fc, blockNum, u.endorsement(st))
 }
 
+// the parameter as stored (0 = unset)
+func (u *universe) mbpRaw(st *state.State) uint64 {
+	v, err := builtin.Params.Native(st).Get(thor.KeyMaxBlockProposers)
+	must(err)
+	if !v.IsUint64() {
+		die("max-block-proposers does not fit 64 bits")
+	}
+	return v.Uint64()
+}
+
+// the limit both use sites pass on: thor.GetMaxBlockProposers(params, capToInitial = true)
 func (u *universe) mbp(st *state.State) uint64 {
 	v, err := thor.GetMaxBlockProposers(builtin.Params.Native(st), true)
 	must(err)
@@ -195,7 +210,7 @@ func (u *universe) proj(st *state.State, blockNum uint32) map[string]any {
 		bal[e] = q.Int64()
 	}
 	return map[string]any{"links": links, "head": head, "tail": u.nodeName(tp), "get": get, "all": u.candList(all),
-		"cands": u.candList(cands), "fresh": u.propList(fresh), "bal": bal, "mbp": u.mbp(st)}
+		"cands": u.candList(cands), "fresh": u.propList(fresh), "bal": bal, "mbp": u.mbpRaw(st)}
 }
 
 // norm: through JSON, so that both sides have the same dynamic types
@@ -473,7 +488,7 @@ func replayMode(in, out string) {
 }
 
 func main() {
-	mode := flag.String("mode", "replay", "replay | chain")
+	mode := flag.String("mode", "replay", "replay | chain | bignet")
 	in := flag.String("in", "", "replay: directory with beh_*.json")
 	out := flag.String("out", "", "output directory")
 	seed := flag.Int64("seed", 1, "chain: seed")
@@ -490,6 +505,13 @@ func main() {
 	case "chain":
 		w := &trace.Writer{}
 		st := chainMode(w, *seed, *runs, *blocks)
+		must(w.WriteFile(filepath.Join(*out, "trace.ndjson")))
+		b, _ := json.MarshalIndent(st, "", " ")
+		must(os.WriteFile(filepath.Join(*out, "summary.json"), b, 0o644))
+		fmt.Printf("{\"runs\":%d,\"blocks\":%d,\"divergences\":%d}\n", st.Runs, st.Blocks, len(st.Divergences))
+	case "bignet":
+		w := &trace.Writer{}
+		st := bigNetMode(w, *seed, *blocks)
 		must(w.WriteFile(filepath.Join(*out, "trace.ndjson")))
 		b, _ := json.MarshalIndent(st, "", " ")
 		must(os.WriteFile(filepath.Join(*out, "summary.json"), b, 0o644))
